@@ -39,7 +39,7 @@ SHARD_TIMEOUT = {"quick": 500, "thorough": 3000}
 
 def plan(tier, seed):
     shards = []
-    n, stores, reqs = (4, 2, 120) if tier == "quick" else (16, 5, 400)
+    n, stores, reqs = (4, 2, 120) if tier == "quick" else (32, 8, 400)
     for backend in ("sql", "lmdb"):
         for cap in (7, 25):
             for i in range(n):
